@@ -387,6 +387,8 @@ def _history_case(ctx, drv, rng, i, n_sub):
             elif act == "validate":
                 if q._result.quantized_model is None:
                     continue
+                if not runtime_takes(ctx, q, case.data):
+                    continue
                 d0 = snap(case.data)
                 try:
                     q.validate(case.data)
@@ -465,7 +467,7 @@ def _history_case(ctx, drv, rng, i, n_sub):
                 ctx.tag("calibrate_nonfinite_samples")
                 if snap(samples) != d0:
                     return fail("calibrate() modified the calibration data (samples containing NaN / Inf)", "calib-data-mutated-nonfinite")
-            if last_result[0] is not None and qs[0]._result.quantized_model is not None:
+            if last_result[0] is not None and qs[0]._result.quantized_model is not None and runtime_takes(ctx, qs[0], odd):
                 d0 = snap(odd)
                 try:
                     qs[0].validate(odd)
@@ -483,6 +485,29 @@ def _history_case(ctx, drv, rng, i, n_sub):
                 return fail(f"quantize() output differs in a fresh process with PYTHONHASHSEED={seed}: {h[:24]} vs {last[2][:24]}", "process-dependent")
         # and the model agrees with the bytes too (pipeline correspondence on the final arguments)
     ctx.case({"ops": [sg["ops"] for sg in case.info["subgraphs"]], "history": log}, True)
+
+
+_INTERP = [None]
+
+
+def runtime_takes(ctx, q, data):
+    """validate() runs the QUANTIZED model inside this process; a few models make the runtime abort() outright (cf. finding D29: an integer
+    ADD / SUB whose output multiplier is >= 1), which would take the whole check with it. The model is therefore tried first in a child
+    process (the harness's interpreter server) on the same samples; validate() is only called when the runtime survives them."""
+    try:
+        mb_out = bytes(q._result.quantized_model)
+        if _INTERP[0] is None:
+            _INTERP[0] = pl.Interp()
+        n = max((len(v) for v in data.values()), default=0)
+        for j in range(n):
+            r = _INTERP[0].run(mb_out, {k: v[j:j + 1] for k, v in data.items() if len(v) > j})
+            if r[0] in ("abort", "timeout"):
+                ctx.tag("validate_skipped_runtime_aborts")
+                return False
+        return True
+    except Exception:  # noqa: BLE001
+        ctx.tag("validate_skipped_runtime_refuses_or_aborts")
+        return False
 
 
 def run(ctx):
@@ -503,6 +528,9 @@ def run(ctx):
             break
         history_case(ctx, drv, rng, i, n_sub)
     drv.close()
+    if _INTERP[0] is not None:
+        _INTERP[0].close()
+        _INTERP[0] = None
     return common.finish(ctx)
 
 
